@@ -138,6 +138,21 @@ func Concat(a string, b string) string {
 	return a + b
 }
 
+func ConcatRev(a string, b string) string {
+	return b + a
+}
+
+func ConcatLocals(a string, b string) []string {
+	y := b
+	x := a
+	sep := "|"
+	r := sep + y
+	r = x + r
+	t := y
+	t += x
+	return []string{x + y, y + x, r, t, sep + x + sep}
+}
+
 func ConcatAlias(a string, b string) []string {
 	c := a
 	d := b
@@ -354,6 +369,8 @@ func c13run(r *report.Run) {
 			check(m, "Cmp", []string{s, t}, nil, fmt.Sprintf("int32:%d", n))
 			if len(t) <= 4 || k%5 == 0 {
 				check(m, "Concat", []string{s, t}, nil, "string:"+strconv.Quote(s+t))
+				check(m, "ConcatRev", []string{s, t}, nil, "string:"+strconv.Quote(t+s))
+				check(m, "ConcatLocals", []string{s, t}, nil, fmt.Sprintf("[]string[string:%s string:%s string:%s string:%s string:%s]", strconv.Quote(s+t), strconv.Quote(t+s), strconv.Quote(s+"|"+t), strconv.Quote(t+s), strconv.Quote("|"+s+"|")))
 				check(m, "ConcatAlias", []string{s, t}, nil, fmt.Sprintf("[]string[string:%s string:%s string:%s string:%s]", strconv.Quote(s+t), strconv.Quote(s), strconv.Quote(t), strconv.Quote(t)))
 			}
 		}
